@@ -158,3 +158,49 @@ func VP_C09_RestoreStaged() {
 	}
 	zzvp.Done()
 }
+
+// VP_C09_RestoreMulti: restore with two arguments, among them a tracked directory next to tracked paths whose names
+// extend the directory's name ("d", "d.txt", "d2"): every named tracked file equals its staged blob afterwards.
+func VP_C09_RestoreMulti() {
+	vpInitRepo()
+	w := zzvp.Root()
+	d := vpComp("md", 1)
+	sib := d + zzvp.Str("ms", 1, "a-z0-9._-") // a sibling whose name starts with the directory's name
+	inner := d + "/" + vpComp("mi", 1)
+	other := vpComp("mo", 1)
+	zzvp.Assume(other != d && other != sib)
+	paths := []string{inner, sib, other}
+	for i, p := range paths {
+		zzvp.WriteFile(w+"/"+p, []byte{byte('1' + i)})
+	}
+	vpOK(zzvp.Run("add", "."))
+	if zzvp.Choose(2) == 1 {
+		vpOK(zzvp.Run("commit", "-m", "c"))
+	}
+	// dirty all three (edit or delete)
+	for _, p := range paths {
+		if zzvp.Choose(2) == 0 {
+			zzvp.WriteFile(w+"/"+p, []byte("dirty"))
+		} else {
+			zzvp.RemoveAll(w + "/" + p)
+		}
+	}
+	args := [][]string{{d, sib}, {sib, d}, {d, inner}, {inner, d}, {d, d}, {d, other}, {sib, other}}[zzvp.Choose(7)]
+	r := zzvp.Run("restore", args[0], args[1])
+	zzvp.Assert(r.Exit == 0, "a tracked file, or a directory with tracked files (existing or not), can be restored")
+	for i, p := range paths {
+		namedP := false
+		for _, a := range args {
+			if vpUnder(p, a) {
+				namedP = true
+			}
+		}
+		c, ok := zzvp.ReadFile(w + "/" + p)
+		if namedP {
+			zzvp.Assert(ok && len(c) == 1 && c[0] == byte('1'+i), "each named tracked file is byte-identical to its staged blob, missing parents created")
+		} else {
+			zzvp.Assert(!ok || string(c) == "dirty", "restore changes no file that was not named")
+		}
+	}
+	zzvp.Done()
+}
